@@ -133,9 +133,99 @@ def check_statics(spec):
         shutil.rmtree(tmp, ignore_errors=True)
 
 
+def _sccs(graph):
+    """Tarjan; returns the set of nodes that lie on a cycle (including self-loops)."""
+    index, low, on, stack, out, counter = {}, {}, set(), [], set(), [0]
+
+    def visit(v):
+        work = [(v, iter(graph.get(v, ())))]
+        index[v] = low[v] = counter[0]; counter[0] += 1
+        stack.append(v); on.add(v)
+        while work:
+            node, it = work[-1]
+            adv = False
+            for w in it:
+                if w not in index:
+                    index[w] = low[w] = counter[0]; counter[0] += 1
+                    stack.append(w); on.add(w)
+                    work.append((w, iter(graph.get(w, ()))))
+                    adv = True
+                    break
+                elif w in on:
+                    low[node] = min(low[node], index[w])
+            if adv:
+                continue
+            work.pop()
+            if work:
+                low[work[-1][0]] = min(low[work[-1][0]], low[node])
+            if low[node] == index[node]:
+                comp = []
+                while True:
+                    w = stack.pop(); on.discard(w); comp.append(w)
+                    if w == node:
+                        break
+                if len(comp) > 1 or node in graph.get(node, ()):
+                    out.update(comp)
+    for v in list(graph):
+        if v not in index:
+            visit(v)
+    return out
+
+
+def check_frames(spec):
+    """C19 (supporting static fact): every library function that takes part in recursion has a stack frame whose size is a
+    compile-time constant (clang -fstack-usage: 'static'), so native stack use is (frames per level) x (nesting depth).
+    A 'dynamic' frame (VLA / alloca) in a recursive function makes the stack depend on run-time values."""
+    tmp = tempfile.mkdtemp(prefix="verif-su-")
+    try:
+        gen = os.path.join(tmp, "gen")
+        driver.gen_headers(gen)
+        frames = {}
+        for f in lib_sources():
+            o = os.path.join(tmp, os.path.basename(f) + ".o")
+            cmd = ["clang", "-c", "-O0", "-fstack-usage", "-DNDEBUG"] + driver.REAL_DEFINES + ["-I", gen, "-I", driver.SRC, f, "-o", o]
+            p = subprocess.run(cmd, stdout=subprocess.PIPE, stderr=subprocess.STDOUT)
+            if p.returncode != 0:
+                return dict(undecided="clang failed on %s: %s" % (f, p.stdout.decode()[-500:]), obligations=0, failures=[])
+            su = o[:-2] + ".su"
+            if not os.path.exists(su):
+                return dict(undecided="no stack-usage file for " + f, obligations=0, failures=[])
+            for line in open(su):
+                parts = line.rstrip("\n").split("\t")
+                if len(parts) >= 3:
+                    frames[parts[0].split(":")[-1]] = (int(parts[1]), parts[2], parts[0])
+        gb = os.path.join(tmp, "all.gb")
+        p = subprocess.run(["goto-cc", "-DNDEBUG"] + driver.REAL_DEFINES + ["-I", gen, "-I", driver.SRC] + lib_sources() + ["-o", gb],
+                           stdout=subprocess.PIPE, stderr=subprocess.STDOUT)
+        if p.returncode != 0:
+            return dict(undecided="goto-cc failed: " + p.stdout.decode()[-500:], obligations=0, failures=[])
+        cg = subprocess.run(["goto-instrument", "--call-graph", gb], stdout=subprocess.PIPE, stderr=subprocess.DEVNULL).stdout.decode()
+        graph = {}
+        for line in cg.splitlines():
+            m = re.match(r"^(\S+) -> (\S+)$", line)
+            if m:
+                graph.setdefault(m.group(1), set()).add(m.group(2))
+        rec = sorted(x for x in _sccs(graph) if x in frames)
+        if not {"cbor_decref", "cbor_copy", "cbor_serialize"} <= set(rec):
+            return dict(undecided="call-graph analysis no longer finds the known recursive functions (found %r)" % rec, obligations=0, failures=[])
+        fails, samples = [], []
+        for fn in rec:
+            size, kind, where = frames[fn]
+            samples.append("%s: %d bytes, %s" % (fn, size, kind))
+            if kind != "static":
+                fails.append(dict(id="frame.%s" % fn, file=where,
+                                  what="C19: recursive function %s has a %s stack frame (%d bytes + run-time part): native stack is no "
+                                       "longer (constant per level) x depth" % (fn, kind, size)))
+        return dict(obligations=len(rec), failures=fails, samples=samples[:12],
+                    cmd="clang -O0 -fstack-usage <each library TU>; goto-instrument --call-graph (recursive = on a call-graph cycle)")
+    finally:
+        shutil.rmtree(tmp, ignore_errors=True)
+
+
 CHECKS = [
     dict(name="static_nm_scan", props=["C13"], fn=check_nm),
     dict(name="static_symbol_scan", props=["C17"], fn=check_statics),
+    dict(name="static_recursive_frames", props=["C19"], fn=check_frames),
 ]
 
 
